@@ -487,6 +487,21 @@ func execC20(sc *C20Scenario, tr *kit.Trace, res *kit.Result) {
 		isSynth := len(got) > 0 && !isNative
 		tr.AddAt(w.Now(), "%s aaaa=%v native=%v faults=%v", ctx, got, isNative, legFaultFired)
 		tr.Shape(fmt.Sprintf("%s|%v|%v|%v", truth6.Kind, isSynth, len(legFaultFired) > 0, dns.RcodeToString[m.Rcode]))
+		if m.Rcode == dns.RcodeServerFailure {
+			if o := m.IsEdns0(); o != nil {
+				n, codes := 0, ""
+				for _, e := range o.Option {
+					if x, ok := e.(*dns.EDNS0_EDE); ok {
+						n++
+						codes += fmt.Sprintf("-%d", x.InfoCode)
+					}
+				}
+				res.Probes[fmt.Sprintf("servfail-with-%d-extended-errors", n)]++
+				if n > 1 {
+					res.Probes["servfail-extended-error-codes"+codes]++
+				}
+			}
+		}
 		if legFaultFired["aaaa"] > 0 && bogusFired["aaaa"] == 0 && m.Rcode == dns.RcodeServerFailure && !op.CD {
 			lastLegFailure[dns.CanonicalName(op.Name)] = w.Now()
 		}
